@@ -45,6 +45,8 @@ CONTEXTS = {
          [("Select", "lambda e: e.jets().Select(f=lambda j: j.m({A}))")]),
     17: ("the same call twice in one body (as ONE shared ast node when the lambda is supplied as an ast)", "evt",
          [("Select", "lambda e: e.m({A}) + e.m({A})")]),
+    18: ("a method NAMED like a collection operator (First) declared by the user's own Iterable subclass", "hitlist",
+         [("Select", "lambda e: e.hitlist().First({A})")]),
     14: ("inside a conditional and a comparison chain in a Where of a nested collection", "jet",
          [("Select", "lambda e: e.jets().Where(lambda j: (j.m({A}) if j.m({A}) > 0 else 0) > 1).Count()")]),
 }
@@ -94,10 +96,14 @@ class Jet:
     def m({msig('jet')}) -> int: ...
     def trks(self) -> Iterable[Trk]: ...
 
+class HitList(Iterable[Hit]):
+    def First({msig('hitlist')}) -> int: ...
+
 class Evt:
     def m({msig('evt')}) -> int: ...
     def wrap(self, v: int, w: int = 77) -> int: ...
     def jets(self) -> Iterable[Jet]: ...
+    def hitlist(self) -> HitList: ...
 
 @func_adl_callable()
 def {fname}({sig_source(sig, with_self=False)}) -> int: ...
@@ -158,7 +164,7 @@ def run_case(cid, case):
             return 0
 
     A = args_source(sig, shape)
-    rec = {"id": cid, "kind": "call", "sig": sig, "shape": shape, "mname": fname if owner == "fn" else "m",
+    rec = {"id": cid, "kind": "call", "sig": sig, "shape": shape, "mname": fname if owner == "fn" else ("First" if owner == "hitlist" else "m"),
            "out": codec.T("absent"), "exc": "", "ctx": ctx, "source": ""}
     try:
         s = DS()
